@@ -75,10 +75,15 @@ def _subst(e, env):
     return norm._Subst(dict(env)).visit(copy.deepcopy(e))
 
 
+_fresh = [0]
+
+
 def _kill(env, names):
-    for k in list(env):
-        if k in names or ({n.id for n in ast.walk(env[k]) if isinstance(n, ast.Name)} & names):
-            del env[k]
+    """the names become unknown (assigned in a loop / try / with target): bind each to a fresh symbol.  A bare Name x
+    inside a binding always denotes the value x had on entry (a parameter), so other bindings stay valid."""
+    for x in sorted(names):
+        _fresh[0] += 1
+        env[x] = ast.Name(id=f"{x}_u{_fresh[0]}", ctx=ast.Load())
 
 
 def _split_walrus(e, env):
@@ -197,7 +202,6 @@ class Summariser:
             v = _split_walrus(s.value, q.env)
             if isinstance(s.target, ast.Name):
                 old = q.env.get(s.target.id, ast.Name(id=s.target.id, ctx=ast.Load()))
-                _kill(q.env, {s.target.id})
                 q.env[s.target.id] = ast.BinOp(left=copy.deepcopy(old), op=s.op, right=v)
                 # in-place mutation of a shared object is also an effect
                 q.effects.append(ast.copy_location(ast.AugAssign(target=ast.Name(id=s.target.id, ctx=ast.Store()), op=s.op, value=v), s))
@@ -241,11 +245,15 @@ class Summariser:
             if isinstance(s, ast.For):
                 s2.iter = _subst(s.iter, q.env)
                 killed |= {n.id for n in ast.walk(s.target) if isinstance(n, ast.Name)}
-            inner_env = {k: v for k, v in q.env.items() if k not in killed and not ({n.id for n in ast.walk(v) if isinstance(n, ast.Name)} & killed)}
+            inner_env = dict(q.env)
+            _kill(inner_env, {k for k in killed if not (isinstance(s, ast.For) and k in {n.id for n in ast.walk(s.target) if isinstance(n, ast.Name)})})
+            for k in ({n.id for n in ast.walk(s.target) if isinstance(n, ast.Name)} if isinstance(s, ast.For) else set()):
+                inner_env.pop(k, None)          # the loop variables are themselves inside the body
+            shown_env = {k: v for k, v in inner_env.items() if k not in killed}     # inside the opaque effect loop-carried names keep their names
             if isinstance(s, ast.While):
-                s2.test = _subst(s.test, inner_env)
-            s2.body = [_subst(x, inner_env) for x in s.body]
-            s2.orelse = [_subst(x, inner_env) for x in s.orelse]
+                s2.test = _subst(s.test, shown_env)
+            s2.body = [_subst(x, shown_env) for x in s.body]
+            s2.orelse = [_subst(x, shown_env) for x in s.orelse]
             q.effects.append(s2)
             _kill(q.env, killed)
             # a return / raise inside the loop is a possible end of the path: summarise the body once (one iteration,
@@ -307,9 +315,8 @@ class Summariser:
 
     def _bind(self, t, v, q: Path, s):
         if isinstance(t, ast.Name):
-            _kill(q.env, {t.id})
-            if t.id not in {n.id for n in ast.walk(v) if isinstance(n, ast.Name)}:
-                q.env[t.id] = v
+            # v was computed with the previous bindings substituted; a bare name left in it denotes a value on entry
+            q.env[t.id] = v
             return
         if isinstance(t, (ast.Tuple, ast.List)):
             if isinstance(v, (ast.Tuple, ast.List)) and len(v.elts) == len(t.elts) and not any(isinstance(x, ast.Starred) for x in list(t.elts) + list(v.elts)):
